@@ -149,7 +149,7 @@ func C09Busy(r *simkit.Run) {
 		r.Fail(prop, "panic", "cli-panic/busy", "migrate apply panicked: %s", res.ErrLine())
 		return
 	}
-	c := &c10{r: r, w: w, files: files, mode: "none", allowedDup: map[string]bool{}}
+	c := &c10{r: r, w: w, files: files, mode: "none", allowedDup: map[string]int{}}
 	if !reached {
 		r.Probe("busy-point-not-reached")
 		if res.Exit != 0 {
@@ -186,7 +186,7 @@ func C09Busy(r *simkit.Run) {
 			return
 		}
 		if hasRev && lead == rev.Applied+1 {
-			c.allowedDup[f.Stmts[rev.Applied].ID] = true
+			c.allowedDup[f.Stmts[rev.Applied].ID]++
 			r.Probe("statement-executed-but-bookkeeping-write-failed")
 		}
 	}
@@ -206,7 +206,7 @@ func C09Busy(r *simkit.Run) {
 		}
 		for _, s := range f.Stmts {
 			n := Effect(d, s)
-			if n > 2 || (n == 2 && !c.allowedDup[s.ID]) {
+			if n > 1+c.allowedDup[s.ID] {
 				r.Fail(prop, "multiplicity", "statement-repeated/cli/"+point, "statement %s took effect %d times; only %v lost their bookkeeping write", s.ID, n, keys(c.allowedDup))
 				return
 			}
